@@ -74,7 +74,7 @@ func init() {
 		Text: "For every hand-written envelope type of restlidata/…/common whose decoder reads a record with a RequiredFields list (restlicodec.NewRequiredFields().Add(…)): " +
 			"in MarshalRestLi, on every path of the WriteMap callback to a return that may be a success, keyWriter(F) has been called for each required F (calls of helper methods that receive keyWriter contribute what they always write). " +
 			"An envelope section left out when it is empty is a missing required field on the other side.",
-		Props: []string{"C02", "C03", "C06", "C16"},
+		Props: []string{"C02", "C03", "C06", "C16", "C08"},
 		Floor: map[string]int{"v2": 4, "root": 4},
 		Run:   runR027,
 	})
@@ -1047,14 +1047,7 @@ func runR034(c *core.Ctx) {
 		b, ok := s.Elem().Underlying().(*types.Basic)
 		return ok && b.Kind() == types.Uint8
 	}
-	// the loop: the first for statement of the body whose body switches on (or compares) data[pos]
-	var loop *ast.ForStmt
-	loopIdx := -1
-	for i, st := range fd.Body.List {
-		fs, ok := st.(*ast.ForStmt)
-		if !ok {
-			continue
-		}
+	scans := func(fs *ast.ForStmt) bool {
 		uses := false
 		ast.Inspect(fs.Body, func(x ast.Node) bool {
 			if e, ok := x.(ast.Expr); ok && isDataAtPos(e) {
@@ -1062,83 +1055,16 @@ func runR034(c *core.Ctx) {
 			}
 			return true
 		})
-		if uses {
-			loop, loopIdx = fs, i
-			break
-		}
+		return uses
 	}
-	if loop == nil {
-		c.Unknown(rel, fn, "scanning loop", fd.Pos(), "no top-level for loop that looks at data[pos]")
-		return
+	isPosField := func(e ast.Expr) bool {
+		sel, ok := core.Unparen(e).(*ast.SelectorExpr)
+		if !ok {
+			return false
+		}
+		fv, ok := core.ObjOf(inf, sel).(*types.Var)
+		return ok && fv.IsField() && core.ObjOf(inf, sel.X) == recv && core.NameOf(fv) == "pos"
 	}
-	// statements before the loop that define the locals the loop uses
-	used := map[types.Object]bool{}
-	ast.Inspect(loop.Body, func(x ast.Node) bool {
-		if id, ok := x.(*ast.Ident); ok {
-			if v, ok := inf.Uses[id].(*types.Var); ok && !v.IsField() && v != recv {
-				used[v] = true
-			}
-		}
-		return true
-	})
-	var inits []ast.Stmt
-	var counter types.Object
-	for _, st := range fd.Body.List[:loopIdx] {
-		switch y := st.(type) {
-		case *ast.AssignStmt:
-			for _, l := range y.Lhs {
-				if o := core.ObjOf(inf, l); o != nil && used[o] {
-					inits = append(inits, st)
-				}
-			}
-		case *ast.DeclStmt:
-			if gd, ok := y.Decl.(*ast.GenDecl); ok {
-				for _, sp := range gd.Specs {
-					if vs, ok := sp.(*ast.ValueSpec); ok {
-						for _, nm := range vs.Names {
-							if used[inf.Defs[nm]] {
-								inits = append(inits, st)
-							}
-						}
-					}
-				}
-			}
-		}
-	}
-	// the counter: the integer local the loop body modifies
-	nCounters := 0
-	ast.Inspect(loop.Body, func(x ast.Node) bool {
-		var target ast.Expr
-		switch y := x.(type) {
-		case *ast.IncDecStmt:
-			target = y.X
-		case *ast.AssignStmt:
-			if len(y.Lhs) == 1 {
-				target = y.Lhs[0]
-			}
-		}
-		if target != nil {
-			if o := core.ObjOf(inf, target); o != nil && used[o] {
-				if b, ok := o.Type().Underlying().(*types.Basic); ok && b.Info()&types.IsInteger != 0 && o != counter {
-					counter = o
-					nCounters++
-				}
-			}
-		}
-		return true
-	})
-	if nCounters != 1 {
-		c.Unknown(rel, fn, "nesting counter", loop.Pos(), fmt.Sprintf("the loop body modifies %d integer locals (expected exactly one nesting counter)", nCounters))
-		return
-	}
-	// the statement after the loop is an error return
-	afterOK := false
-	if loopIdx+1 < len(fd.Body.List) {
-		if r, ok := fd.Body.List[loopIdx+1].(*ast.ReturnStmt); ok && len(r.Results) == 1 && !core.IsNil(inf, r.Results[0]) {
-			afterOK = true
-		}
-	}
-	c.Check(afterOK, rel, fn, "input that ends inside the skipped value is an error", loop.End(), "", "the statement after the scanning loop is not the return of an error")
 	type mode struct {
 		name           string
 		atArray, atMap bool
@@ -1148,59 +1074,135 @@ func runR034(c *core.Ctx) {
 		name string
 		b    byte
 	}{{"'('", '('}, {"','", ','}, {"')'", ')'}, {"other", 'x'}}
+	par := core.Parents(fd)
+	checkedAfter := map[*ast.ForStmt]bool{}
 	for _, md := range modes {
-		for _, bt := range bytes {
-			for k := int64(0); k <= 3; k++ {
-				if md.name == "primitive" && k > 0 {
-					continue
+		// the scanning loop this kind of value reaches: the function is evaluated from its start (not at input start: the
+		// value is nested), with atArray() / atMap() as atoms, up to the first loop that looks at data[pos]
+		var cur byte
+		mk := func() *core.FinInterp {
+			it := &core.FinInterp{Info: inf, M: c.M}
+			it.Bind = func(e ast.Expr, env core.FinEnv) (interface{}, bool) {
+				if isDataAtPos(e) {
+					return int64(cur), true
 				}
-				it := &core.FinInterp{Info: inf, M: c.M}
-				it.Bind = func(e ast.Expr, env core.FinEnv) (interface{}, bool) {
-					if isDataAtPos(e) {
-						return int64(bt.b), true
+				if be, ok := e.(*ast.BinaryExpr); ok && (be.Op == token.EQL || be.Op == token.NEQ) && isPosField(be.X) {
+					if cv := core.ConstOf(inf, be.Y); cv != nil && cv.ExactString() == "0" {
+						return be.Op == token.NEQ, true // pos != 0
 					}
-					if call, ok := e.(*ast.CallExpr); ok {
-						if f := core.Callee(inf, call); f != nil {
-							switch core.NameOf(f) {
-							case "atArray":
-								return md.atArray, true
-							case "atMap":
-								return md.atMap, true
-							}
+				}
+				if call, ok := e.(*ast.CallExpr); ok {
+					if f := core.Callee(inf, call); f != nil {
+						switch core.NameOf(f) {
+						case "atArray":
+							return md.atArray, true
+						case "atMap":
+							return md.atMap, true
 						}
 					}
-					return nil, false
+				}
+				return nil, false
+			}
+			return it
+		}
+		it := mk()
+		it.StopAt = func(st ast.Stmt) bool {
+			fs, ok := st.(*ast.ForStmt)
+			return ok && scans(fs)
+		}
+		env0 := core.FinEnv{}
+		out, err := it.Exec(fd.Body.List, env0)
+		if err != nil || out.Kind != "stop" {
+			why := "no loop that looks at data[pos] is reached"
+			if err != nil {
+				why = err.Error()
+			}
+			c.Unknown(rel, fn, "scanning loop for a "+md.name+" value", fd.Pos(), why)
+			continue
+		}
+		loop := out.Stop.(*ast.ForStmt)
+		// the statement after the loop (in its own list) returns an error
+		if !checkedAfter[loop] {
+			checkedAfter[loop] = true
+			afterOK := false
+			if list, idx := core.StmtListOf(par, loop); idx >= 0 && idx+1 < len(list) {
+				if r, ok := list[idx+1].(*ast.ReturnStmt); ok && len(r.Results) == 1 && !core.IsNil(inf, r.Results[0]) {
+					afterOK = true
+				}
+			}
+			c.Check(afterOK, rel, fn, fmt.Sprintf("input that ends inside the skipped value is an error (loop #%d)", ordinal(fd, loop)), loop.End(), "", "the statement after the scanning loop is not the return of an error")
+		}
+		// the counter: the integer local the loop body modifies (none: the loop never nests)
+		var counter types.Object
+		nCounters := 0
+		ast.Inspect(loop.Body, func(x ast.Node) bool {
+			var target ast.Expr
+			switch y := x.(type) {
+			case *ast.IncDecStmt:
+				target = y.X
+			case *ast.AssignStmt:
+				if len(y.Lhs) == 1 {
+					target = y.Lhs[0]
+				}
+			}
+			if id, ok := target.(*ast.Ident); ok {
+				if o := core.ObjOf(inf, id); o != nil && o != counter && core.ObjPos(o) < loop.Pos() {
+					if b, ok := o.Type().Underlying().(*types.Basic); ok && b.Info()&types.IsInteger != 0 {
+						counter = o
+						nCounters++
+					}
+				}
+			}
+			return true
+		})
+		if nCounters > 1 {
+			c.Unknown(rel, fn, "nesting counter for a "+md.name+" value", loop.Pos(), fmt.Sprintf("the loop body modifies %d integer locals (expected at most one nesting counter)", nCounters))
+			continue
+		}
+		var c0 int64
+		if counter != nil {
+			v, ok := out.Env[counter].(int64)
+			if !ok {
+				c.Unknown(rel, fn, "nesting counter for a "+md.name+" value", loop.Pos(), "the nesting counter has no constant initial value")
+				continue
+			}
+			c0 = v
+		}
+		for _, bt := range bytes {
+			for k := int64(0); k <= 3; k++ {
+				if (md.name == "primitive" || counter == nil) && k > 0 {
+					continue
 				}
 				construct := fmt.Sprintf("row byte=%s value=%s depth=%d", bt.name, md.name, k)
+				cur = bt.b
 				env := core.FinEnv{}
-				if _, err := it.Exec(inits, env); err != nil {
-					c.Unknown(rel, fn, construct, loop.Pos(), "the locals of the loop cannot be evaluated: "+err.Error())
-					continue
+				for o, v := range out.Env {
+					env[o] = v
 				}
-				c0, ok := env[counter].(int64)
-				if !ok {
-					c.Unknown(rel, fn, construct, loop.Pos(), "the nesting counter has no constant initial value")
-					continue
+				if counter != nil {
+					env[counter] = c0 + k
 				}
-				env[counter] = c0 + k
-				out, err := it.Exec(loop.Body.List, env)
+				res, err := mk().Exec(loop.Body.List, env)
 				if err != nil {
 					c.Unknown(rel, fn, construct, loop.Pos(), "undecided: "+err.Error())
 					continue
 				}
 				got := ""
-				switch out.Kind {
+				switch res.Kind {
 				case "return":
-					if len(out.Ret.Results) == 1 && core.IsNil(inf, out.Ret.Results[0]) {
+					if len(res.Ret.Results) == 1 && core.IsNil(inf, res.Ret.Results[0]) {
 						got = "stop"
 					} else {
 						got = "error"
 					}
 				default:
-					if v, ok := out.Env[counter].(int64); ok {
-						got = fmt.Sprintf("continue at depth %d", v-c0)
-					} else {
-						got = "continue at an unknown depth"
+					got = fmt.Sprintf("continue at depth %d", k)
+					if counter != nil {
+						if v, ok := res.Env[counter].(int64); ok {
+							got = fmt.Sprintf("continue at depth %d", v-c0)
+						} else {
+							got = "continue at an unknown depth"
+						}
 					}
 				}
 				composite := md.name != "primitive"
@@ -1357,7 +1359,7 @@ func init() {
 		Text: "In the runtime packages (restlicodec, restli, restli/batchkeyset, d2 and the hand-written envelope types): along every CFG path (loop back edges included), a local or result variable of type error that received the result of a call " +
 			"is read (tested, returned, wrapped, passed on) before it is assigned again. An item marshaler or validator whose error is replaced by the outcome of the next item makes `encoding returns an error` depend on which item came last: " +
 			"a constraint violation in any but the last element of an array is emitted. Variables captured by function literals are not followed.",
-		Props: []string{"C11", "C04", "C08"},
+		Props: []string{"C11", "C04", "C08", "C19"},
 		Floor: map[string]int{"v2": 80, "root": 80},
 		Run:   runR117,
 	})
